@@ -206,7 +206,8 @@ class View:
         if not fx:
             return False
         params = set(fx.get("params") or [])
-        for q in reversed([x for x in self.execs if x.thread == e.thread and x.enter < e.enter and x.task == e.task]):
+        for q in reversed([x for x in self.execs if x.thread == e.thread and x.enter < e.enter and x.task == e.task
+                           and not is_nested(x.unit)]):     # (blocks / threads of a fixture's script belong to that fixture's exec)
             if q.end is None or q.end > e.enter or q.unit[0] != "fx" or q.unit[2] != "setup" or len(q.unit) != 3:
                 break
             qfx = self.byprim.get(q.unit[1])
